@@ -23,6 +23,10 @@ FIXED = [
     ("C03", "8abda57", "`not size > 100` was evaluated as `size < 100` (Op::negate mirrored the operator instead of complementing it), losing entries equal to the literal", ["not-gt-boundary", "not-gte-boundary"]),
     ("C03", "3dc60d5", "`not (A and B)` negated the comparisons but kept AND (no De Morgan swap)", ["not-and", "not-or", "double-not"]),
     ("C03", "e50e1db", "`x not between a and b` was built as `x <= a or x >= b`, so entries equal to a bound matched both BETWEEN and NOT BETWEEN", ["not-between"]),
+    ("C05", "3da2158", "`order by hardlinks` (also inode, blocks, device) compared the numbers as text: 11 sorted before 3", ["hardlinks-numeric"]),
+    ("C05", "ffe2063", "without a WHERE clause `order by size + 1 desc` was lexed as the keys `size`, `+`, column 1 and sorted ascending (arithmetic operators were only recognised after WHERE)", ["expr-desc-no-where"]),
+    ("C05", "c52c9af", "`order by modified` panicked when the current date is 29 February (fallback date built from today's date with year 1970)", ["date-key-on-feb-29"]),
+    ("C06", "b34b410", "with `archives`, ORDER BY and LIMIT N the archive member loop stopped after N rows had been seen: `order by size desc limit 1` returned the archive instead of its larger member", ["archive-top1-by-size"]),
 ]
 
 OPEN = [
